@@ -68,6 +68,12 @@ def run(repo, rep, tier):
     _linear(repo, rep)
     _own_exprs(repo, rep)
     _binders(repo, rep)
+    # string: expressions find their ${...} with the interpolator's
+    # patterns (a substitution may span lines): C06 owns the loop rules
+    from . import c06
+    L.borrow(repo, rep, "R04.7", "C06", lambda r, p: c06._loop(r, p),
+             ("regex:",), minimum=2)
+    L.state_rule(repo, rep)
 
 
 def _names_tuple(node):
